@@ -116,12 +116,16 @@ Keeps(enc, node, op) ==
 
 \* document-level text mutations are applied once per document (at the root), node-level ones at every node
 TextLevel(op) == op \in JsonTextOps \cup XmlTextOps
+CONSTANT Deep      \* BOOLEAN: thorough tier - every case also combined with a second mutation at the last node of the document
+SecondOps == {"type-unknown", "value-garbage", "drop-node", "tag-unknown-name", "leaf-with-children", "value-missing"}
 VARIABLE c
 Init == \E dn \in DocNames, e \in Encodings, op \in AllOps :
           \E i \in 1..Len(Docs[dn]) :
              /\ Applicable(e, Docs[dn][i], op)
              /\ (TextLevel(op) => i \in {1, Len(Docs[dn])} \/ op = "truncate-at-node")
-             /\ c = [doc |-> dn, enc |-> e, at |-> i, op |-> op, keeps |-> Keeps(e, Docs[dn][i], op), node |-> Docs[dn][i]]
+             /\ \E o2 \in (IF Deep /\ i # Len(Docs[dn]) /\ ~TextLevel(op) THEN SecondOps \cup {"none"} ELSE {"none"}) :
+                  c = [doc |-> dn, enc |-> e, at |-> i, op |-> op, keeps |-> IF o2 = "none" THEN Keeps(e, Docs[dn][i], op) ELSE "any", node |-> Docs[dn][i],
+                       op2 |-> o2, at2 |-> Len(Docs[dn])]
 Next == UNCHANGED c
 Spec == Init /\ [][Next]_c
 
